@@ -442,7 +442,9 @@ out:
 	// Add new client
 	s.connections[ws.id] = ws
 	s.connMutex.Unlock()
-	// Start reader and write routine
+	// Start reader and write routine. The disconnected handler has to wait for the new client handler.
+	ws.announce.Add(1)
+	defer ws.announce.Done()
 	ws.run()
 	if s.newClientHandler != nil {
 		var channel Channel = ws
